@@ -343,6 +343,15 @@ func generateHarnesses(repo, prop, dir string) error {
 	if err != nil {
 		return err
 	}
+	autos, err := scanAutoCalls(repo)
+	if err != nil {
+		return err
+	}
+	b.WriteString("// vpAutoHelpers: a synthesised call, with the item under test in every item position, for every exported\n// function or method whose other parameters are call-backs, pointers or plain values (built from the signatures\n// of the current tree, so a helper added later is driven without touching the harnesses).\nvar vpAutoHelpers = []vpHelper{\n")
+	for _, a := range autos {
+		fmt.Fprintf(&b, "\t{%q, func(x Item, c string) { %s }},\n", a[0], a[1])
+	}
+	b.WriteString("}\n\n")
 	b.WriteString("// vpItemFuncs: every exported function or method of the current tree with an Item/LinkOrIRI parameter.\nvar vpItemFuncs = []string{\n")
 	for _, n := range names {
 		fmt.Fprintf(&b, "\t%q,\n", n)
@@ -564,3 +573,195 @@ func scanDecoders(repo string) ([][2]string, []string, error) {
 }
 
 func strconvUnquote(s string) (string, error) { return strconv.Unquote(s) }
+
+// typeExprString prints a type expression of the package's own source, or "" if it has a form this
+// generator does not reproduce.
+func typeExprString(e ast.Expr) string {
+	switch x := e.(type) {
+	case *ast.Ident:
+		return x.Name
+	case *ast.SelectorExpr:
+		if id, ok := x.X.(*ast.Ident); ok {
+			return id.Name + "." + x.Sel.Name
+		}
+	case *ast.StarExpr:
+		if t := typeExprString(x.X); t != "" {
+			return "*" + t
+		}
+	case *ast.ArrayType:
+		if x.Len == nil {
+			if t := typeExprString(x.Elt); t != "" {
+				return "[]" + t
+			}
+		}
+	case *ast.MapType:
+		k, v := typeExprString(x.Key), typeExprString(x.Value)
+		if k != "" && v != "" {
+			return "map[" + k + "]" + v
+		}
+	case *ast.InterfaceType:
+		if x.Methods == nil || len(x.Methods.List) == 0 {
+			return "any"
+		}
+	}
+	return ""
+}
+
+// funcLiteral prints a call-back of the given type that does nothing and returns zero values.
+func funcLiteral(ft *ast.FuncType) string {
+	var ps []string
+	if ft.Params != nil {
+		for _, p := range ft.Params.List {
+			var t string
+			if el, ok := p.Type.(*ast.Ellipsis); ok {
+				t = typeExprString(el.Elt)
+				if t != "" {
+					t = "..." + t
+				}
+			} else {
+				t = typeExprString(p.Type)
+			}
+			if t == "" {
+				return ""
+			}
+			n := len(p.Names)
+			if n == 0 {
+				n = 1
+			}
+			for i := 0; i < n; i++ {
+				ps = append(ps, "_ "+t)
+			}
+		}
+	}
+	var rs, zs []string
+	if ft.Results != nil {
+		for _, r := range ft.Results.List {
+			t := typeExprString(r.Type)
+			if t == "" {
+				return ""
+			}
+			n := len(r.Names)
+			if n == 0 {
+				n = 1
+			}
+			for i := 0; i < n; i++ {
+				rs = append(rs, t)
+				zs = append(zs, "*new("+t+")")
+			}
+		}
+	}
+	res := ""
+	if len(rs) > 0 {
+		res = " (" + strings.Join(rs, ", ") + ")"
+	}
+	body := ""
+	if len(zs) > 0 {
+		body = " return " + strings.Join(zs, ", ") + " "
+	}
+	return "func(" + strings.Join(ps, ", ") + ")" + res + " {" + body + "}"
+}
+
+// scanAutoCalls builds, for every exported non-generic function/method with an item parameter, a call
+// expression that passes x in the item positions. Functions with a parameter it cannot build are left out.
+func scanAutoCalls(repo string) ([][2]string, error) {
+	fset := token.NewFileSet()
+	files, err := filepath.Glob(filepath.Join(repo, "*.go"))
+	if err != nil {
+		return nil, err
+	}
+	var decls []*ast.FuncDecl
+	funcTypes := map[string]*ast.FuncType{}
+	for _, f := range files {
+		if strings.HasSuffix(f, "_test.go") || strings.HasPrefix(filepath.Base(f), "zz_vp_") {
+			continue
+		}
+		af, err := parser.ParseFile(fset, f, nil, 0)
+		if err != nil {
+			return nil, err
+		}
+		for _, d := range af.Decls {
+			switch x := d.(type) {
+			case *ast.FuncDecl:
+				decls = append(decls, x)
+			case *ast.GenDecl:
+				if x.Tok != token.TYPE {
+					continue
+				}
+				for _, sp := range x.Specs {
+					ts := sp.(*ast.TypeSpec)
+					if ft, ok := ts.Type.(*ast.FuncType); ok && ts.TypeParams == nil {
+						funcTypes[ts.Name.Name] = ft
+					}
+				}
+			}
+		}
+	}
+	var out [][2]string
+	for _, fd := range decls {
+		if !fd.Name.IsExported() || fd.Type.TypeParams != nil {
+			continue
+		}
+		hasItem := false
+		ok := true
+		var args []string
+		for _, p := range fd.Type.Params.List {
+			n := len(p.Names)
+			if n == 0 {
+				n = 1
+			}
+			var arg string
+			switch ts := funcTypeString(p.Type); ts {
+			case "Item", "LinkOrIRI", "ObjectOrLink", "...Item":
+				hasItem = true
+				arg = "x"
+			default:
+				if ft, isFn := p.Type.(*ast.FuncType); isFn {
+					arg = funcLiteral(ft)
+				} else if id, isId := p.Type.(*ast.Ident); isId && funcTypes[id.Name] != nil {
+					arg = funcLiteral(funcTypes[id.Name])
+				} else if st, isStar := p.Type.(*ast.StarExpr); isStar {
+					if t := typeExprString(st.X); t != "" {
+						arg = "new(" + t + ")"
+					}
+				} else if _, isEll := p.Type.(*ast.Ellipsis); isEll {
+					arg = "\x00skip" // no variadic arguments
+				} else if t := typeExprString(p.Type); t != "" {
+					arg = "*new(" + t + ")"
+				}
+				if arg == "" {
+					ok = false
+				}
+			}
+			for i := 0; i < n; i++ {
+				if arg != "\x00skip" {
+					args = append(args, arg)
+				}
+			}
+		}
+		if !hasItem || !ok {
+			continue
+		}
+		name := fd.Name.Name
+		call := fd.Name.Name
+		if fd.Recv != nil && len(fd.Recv.List) > 0 {
+			rt := fd.Recv.List[0].Type
+			name = "(" + funcTypeString(rt) + ")." + name
+			if st, isStar := rt.(*ast.StarExpr); isStar {
+				t := typeExprString(st.X)
+				if t == "" {
+					continue
+				}
+				call = "new(" + t + ")." + fd.Name.Name
+			} else {
+				t := typeExprString(rt)
+				if t == "" {
+					continue
+				}
+				call = "(*new(" + t + "))." + fd.Name.Name
+			}
+		}
+		out = append(out, [2]string{name, call + "(" + strings.Join(args, ", ") + ")"})
+	}
+	sort.Slice(out, func(i, j int) bool { return out[i][0] < out[j][0] })
+	return out, nil
+}
